@@ -26,7 +26,7 @@ m = {
     "version": 1,
     "setup_cmd": "./setup.sh",
     "hooks": {
-        "guard": "none in source: instrumentation is applied at build time with `go test -overlay` (os.* call sites of stage/fileutil/log/store are redirected to an injected vfs package; white-box _test files are injected into package main). /repo sources are never edited by the machinery, so 'guard off' is the plain tree.",
+        "guard": "none in source: instrumentation is applied at build time with `go test -overlay` (os.* / filepath.Walk call sites of stage/fileutil/log/cache/store are redirected to an injected vfs package; white-box _test files are injected into package main, a three-function export file into package client). /repo sources are never edited by the machinery, so 'guard off' is the plain tree.",
         "enable": "./check builds instr/ -> overlay.json from /repo's working tree, then `go1.26 test -c -overlay overlay.json` of harness/ (module replace => /repo)",
         "baseline_off_cmd": "cd /repo && GOFLAGS=-mod=mod GOPROXY=off GOSUMDB=off GOTOOLCHAIN=local go1.26 test -json -vet=off -count=1 -timeout 25m ./...",
         "source_commits": [],
